@@ -15,7 +15,7 @@ from ..kernel import Engine, call, exc_is
 
 CLASSES = ('Bits', 'BitArray', 'ConstBitStream', 'BitStream')
 WRITE_SRC = ('mem', 'file', 'filelen', 'fileoff', 'slice', 'bytesio')
-READ_ROUTES = ('bytes', 'bytearray', 'memoryview', 'bytesio', 'filename', 'handle', 'bitarray', 'mv_cast_H', 'mv_cast_I', 'array_H', 'bytesio_pos', 'bytesio_reused')
+READ_ROUTES = ('bytes', 'bytearray', 'memoryview', 'bytesio', 'filename', 'handle', 'bitarray', 'mv_cast_H', 'mv_cast_I', 'array_H', 'bytesio_pos', 'bytesio_reused', 'bufreader')
 FAULT_KINDS = ('error', 'torn', 'closed')
 
 
@@ -41,7 +41,7 @@ class EIO(Engine):
                    'a mapped file is never truncated by another process (SIGBUS is outside every property)']
     expected_probes = ('write:chunk_boundary_crossed_partial_final_byte', 'write:fault_on_first_write',
                        'write:fault_on_last_write', 'write:torn', 'write:lazy_file_source',
-                       'read:window_ends_mid_byte', 'read:window_at_end', 'fromfile:short', 'roundtrip:ok', 'write:lsb0_mode', 'read:lsb0_mode')
+                       'read:window_ends_mid_byte', 'read:window_at_end', 'fromfile:short', 'roundtrip:ok', 'write:lsb0_mode', 'read:lsb0_mode', 'write:mutated_then_serialised_again')
     exhaustive = True
 
     # -------------------------------------------------------------------------------------------------
@@ -91,7 +91,7 @@ class EIO(Engine):
                 for cls in CLASSES:
                     add(mode='read', size=size, route=route, cls=cls)
         # (8193 bytes: larger than one mmap allocation unit, so windows start beyond it too)
-        for size in ((1025, 8193) if tier == 'quick' else (511, 1024, 1025, 4096, 4097, 8193, 12289)):
+        for size in ((1025, 8192, 8193) if tier == 'quick' else (511, 1024, 1025, 4096, 4097, 8192, 8193, 12288, 12289, 65536)):
             for route in READ_ROUTES:
                 add(mode='read', size=size, route=route, cls=CLASSES[size % 4], sparse=True)
         for dt in ('uint8', 'uint5', 'int12', 'floatbe32', 'uintle16', 'bytes2', 'hex4', 'bool'):
@@ -141,6 +141,13 @@ class EIO(Engine):
             # state-aware generation: learn the number of writes from the no-fault run, then enumerate crash points
             self.queue.append({'k': 'tobytes'})
             self.queue.append({'k': 'tofile'})
+            if cfg.get('cls') in ('BitArray', 'BitStream'):
+                # the object is changed in place after it has been serialised once, and serialised again: what is written
+                # is what it holds NOW (nothing remembered from the first time, nothing re-read from where it came from)
+                hows = ('invert', 'append', 'setitem', 'reverse', 'byteswap', 'prepend', 'imul', 'clear_append')
+                self.queue.append({'k': 'mutate', 'how': hows[(len(cfg.get('bits', '')) + cfg.get('chunk', 8)) % len(hows)]})
+                self.queue.append({'k': 'tobytes'})
+                self.queue.append({'k': 'tofile'})
             self.n_writes = None
         elif mode == 'write_real':
             n = cfg['len']
@@ -283,6 +290,47 @@ class EIO(Engine):
             incs.append(self.inc('tobytes|object-changed', bits=bits, now=self._bin(obj)))
         return {'n': len(want)}, incs
 
+    def ev_mutate(self, ev):
+        if self.cfg['mode'] != 'write' or self.cfg.get('cls') not in ('BitArray', 'BitStream'):
+            return {'skip': 1}, []
+        x = self.obj
+        how = ev.get('how')
+
+        def go():
+            if how == 'invert':
+                x.invert() if len(x) else x.append('0b1')
+            elif how == 'append':
+                x.append('0b101')
+            elif how == 'prepend':
+                x.prepend('0x5')
+            elif how == 'setitem':
+                if len(x):
+                    x[0] = not x[0]
+                else:
+                    x.append('0b0')
+            elif how == 'reverse':
+                x.reverse()
+                x.append('0b1')
+            elif how == 'byteswap':
+                if len(x) % 8 == 0 and len(x):
+                    x.byteswap()
+                x.invert() if len(x) else x.append('0x00')
+            elif how == 'imul':
+                y = x
+                y *= 2 if len(x) <= 4096 else 1
+                if not len(x):
+                    x.append('0b11')
+            else:
+                x.clear()
+                x.append('0xa5c')
+        st, r = call(go)
+        self.fault('mutated_between_serialisations')
+        self.probe('write:mutated_then_serialised_again')
+        # the reference from here on is what the object holds now (read from its store, not through the library's byte paths)
+        self.bits = self._bin(self.obj)
+        self.n_writes_stale = True
+        return {'st': st, 'len': len(self.bits)}, []
+
     def ev_tofile(self, ev):
         """tofile into a SimWriter with an optional fault plan."""
         if self.cfg['mode'] != 'write':
@@ -339,6 +387,7 @@ class EIO(Engine):
         if self._bin(obj) != bits or (kernel.get_pos(obj) if kernel.is_stream(obj) else None) != pos_before:
             incs.append(self.inc('tofile|object-changed', plan=plan))
             self.obj = self._build_write_subject(self.cfg)
+            self.bits = self._bin(self.obj)
         return {'st': st, 'writes': len(w.writes), 'durable': len(w.durable)}, incs
 
     ev_tofile_fault = ev_tofile
@@ -428,6 +477,9 @@ class EIO(Engine):
                     return {'skip': 'size is not a multiple of the item size'}, []
                 buf = memoryview(data).cast(route[-1]) if route.startswith('mv') else array.array('H', data)
                 st, x = call(C, bytes=buf, **kw) if (kw or route == 'array_H') else call(C, buf)
+            elif route == 'bufreader':
+                # a buffered reader that is not a named file (a pipe, a wrapped in-memory stream): read, not mapped
+                st, x = call(C, io.BufferedReader(io.BytesIO(data)), **kw)
             elif route == 'bytesio_pos':
                 # the stream position of a BytesIO is not part of its content (the whole buffer is the source)
                 bio = io.BytesIO(data)
